@@ -293,7 +293,7 @@ func insertYields(fc *fileCtx, y YieldSpec) {
 			short = name[i+1:]
 		}
 		found[short] = true
-		yieldBlock(fc, fd.Body)
+		yieldFuncBody(fc, fd.Body)
 		fc.modified = true
 	}
 	for _, f := range y.Funcs {
@@ -320,6 +320,25 @@ func yieldList(fc *fileCtx, list []ast.Stmt, end token.Pos) []ast.Stmt {
 		out = append(out, yieldStmt(fc, end))
 	}
 	return out
+}
+
+// yieldFuncBody is yieldBlock without the trailing yield: a function body that
+// ends in a terminating statement must keep ending in it.
+func yieldFuncBody(fc *fileCtx, b *ast.BlockStmt) {
+	if b == nil {
+		return
+	}
+	n := len(b.List)
+	b.List = yieldList(fc, b.List, b.Rbrace)
+	if n > 0 && len(b.List) > 0 {
+		if es, ok := b.List[len(b.List)-1].(*ast.ExprStmt); ok {
+			if c, ok := es.X.(*ast.CallExpr); ok {
+				if se, ok := c.Fun.(*ast.SelectorExpr); ok && se.Sel.Name == "Yield" {
+					b.List = b.List[:len(b.List)-1]
+				}
+			}
+		}
+	}
 }
 
 func yieldBlock(fc *fileCtx, b *ast.BlockStmt) {
@@ -379,7 +398,7 @@ func yieldInside(fc *fileCtx, s ast.Stmt) {
 func yieldFuncLits(fc *fileCtx, n ast.Node) {
 	ast.Inspect(n, func(x ast.Node) bool {
 		if fl, ok := x.(*ast.FuncLit); ok {
-			yieldBlock(fc, fl.Body)
+			yieldFuncBody(fc, fl.Body)
 			return false
 		}
 		return true
@@ -419,8 +438,22 @@ func rewriteMutex(fc *fileCtx) {
 		if !isRW && !strings.Contains(rname, "Mutex") {
 			return true
 		}
+		var recvExpr ast.Expr = sel.X
 		if len(s.Index()) != 1 {
-			die("%s: mutex method through embedding is not supported", fc.site(call.Pos()))
+			// method promoted through embedded fields: spell the field path out
+			t := info.TypeOf(sel.X)
+			for _, fi := range s.Index()[:len(s.Index())-1] {
+				if p, ok := t.Underlying().(*types.Pointer); ok {
+					t = p.Elem()
+				}
+				st, ok := t.Underlying().(*types.Struct)
+				if !ok {
+					die("%s: cannot resolve embedded mutex", fc.site(call.Pos()))
+				}
+				f := st.Field(fi)
+				recvExpr = &ast.SelectorExpr{X: recvExpr, Sel: ast.NewIdent(f.Name())}
+				t = f.Type()
+			}
 		}
 		switch {
 		case !isRW && sel.Sel.Name == "Lock":
@@ -438,9 +471,23 @@ func rewriteMutex(fc *fileCtx) {
 		default:
 			return true
 		}
-		var arg ast.Expr = sel.X
-		if _, isPtr := info.TypeOf(sel.X).Underlying().(*types.Pointer); !isPtr {
-			arg = &ast.UnaryExpr{Op: token.AND, X: sel.X}
+		var arg ast.Expr = recvExpr
+		isPtr := false
+		if recvExpr == sel.X {
+			_, isPtr = info.TypeOf(sel.X).Underlying().(*types.Pointer)
+		} else {
+			// the last embedded field: pointer iff the method's receiver field is a pointer type
+			t := info.TypeOf(sel.X)
+			for _, fi := range s.Index()[:len(s.Index())-1] {
+				if p, ok := t.Underlying().(*types.Pointer); ok {
+					t = p.Elem()
+				}
+				t = t.Underlying().(*types.Struct).Field(fi).Type()
+			}
+			_, isPtr = t.Underlying().(*types.Pointer)
+		}
+		if !isPtr {
+			arg = &ast.UnaryExpr{Op: token.AND, X: recvExpr}
 		}
 		site := fc.site(call.Pos())
 		call.Fun = &ast.SelectorExpr{X: ast.NewIdent("verifhook"), Sel: ast.NewIdent(hook)}
